@@ -276,11 +276,56 @@ FAULT_TEXTS = {
     "out_of_range": ["ld 256", "ld -1", "lds 128", "lds -129", "addi 16, 0", "addi 0, 16", "jmp 0x10000", "st [0x10000], 0", "st [0], 256", "st [0], -129",
                      "#d8 256", "#d8 1, 2, 0x100", "#d16 -32769", '#d8 "é"', '#d16 "é", 0x10000', '#d8 "a", "😀"'],
     "malformed_directive": ["#res", "#align", "#bogus 1", "#d8 1 2", "#d8 ,", "#d8 1 +", "#include", "#d8 (1", "#res 1 2", "#addr", "#d8 1,, 2",
-                            "#align 0", "#bankdef", "#bits", "#d", "#include 5", "#once 1", "#fn", "#if", "#d8 )", '#d8 "é" 2', '#d16 "é",, 1', '#include "é" 1'],
+                            "#align 0", "#bankdef", "#bits", "#d", "#d8", "#d16", "zz_new =", "#include 5", "#once 1", "#fn", "#if", "#d8 )", '#d8 "é" 2', '#d16 "é",, 1', '#include "é" 1'],
 }
 
 
-OPEN_ENDED = {"#res", "#align", "#addr", "#d", "#d8 1 +", "#d8 ,", "#if", "#fn", "#bankdef", "#include", "#d8 (1", "#bits"}
+# statements that end where the grammar still wants something: what the parser expects next.  Line breaks are ignorable
+# tokens for expect()/the expression parser, so such a statement CONTINUES on the following lines exactly when the next
+# useful token (blanks, comments and line breaks skipped, same file) can be what is expected (known finding F51).
+# When it cannot (`#`, `}`, end of file ...) the error must be on the fault line itself.
+OPEN_ENDED = {"#res": "expr", "#align": "expr", "#addr": "expr", "#d": "expr", "#d8": "expr", "#d16": "expr", "#d8 1 +": "expr",
+              "#if": "expr", "#bits": "expr", "zz_new =": "expr", "#fn": "ident", "#bankdef": "ident", "#include": "string",
+              "#d8 (1": "close", "#d8 ,": "nothing"}
+
+
+def next_useful(text):
+    """first character of the next useful token of `text` (blanks, line breaks, `;` and `;* *;` comments skipped); None at the end"""
+    i, n = 0, len(text)
+    while i < n:
+        c = text[i]
+        if c in " \t\r\n":
+            i += 1
+        elif text.startswith(";*", i):
+            k = text.find("*;", i + 2)
+            if k < 0:
+                return None
+            i = k + 2
+        elif c == ";":
+            k = text.find("\n", i)
+            if k < 0:
+                return None
+            i = k
+        else:
+            return c
+    return None
+
+
+def can_continue(stmt, nxt):
+    """can the token starting with character nxt be what the unfinished statement still expects?"""
+    want = OPEN_ENDED.get(stmt)
+    if want is None or nxt is None:
+        return False
+    ident = nxt.isalpha() or nxt == "_"
+    if want == "expr":      # parse_unary / parse_leaf: ! - { ( identifier(asm,true,false) . number string
+        return ident or nxt.isdigit() or nxt in "\"({.-!"
+    if want == "ident":
+        return ident
+    if want == "string":
+        return nxt == '"'
+    if want == "close":     # after `(1`: a binary operator or the closing parenthesis
+        return nxt in ")+-*/%&|^<>=!?@`[."
+    return False
 
 
 def order_key(q, fname, line):
@@ -319,6 +364,21 @@ def inject(rng, p, kind):
     else:
         stmt = rng.choice(FAULT_TEXTS[kind])
         pos = rng.range(first, last)
+    # unfinished statements: produce on purpose the situations where the text after the fault line can / cannot continue it
+    situation = "random"
+    if kind == "malformed_directive":
+        if rng.chance(0.5):
+            stmt = rng.choice(sorted(OPEN_ENDED))
+        if stmt in OPEN_ENDED:
+            situation = rng.choice(["random", "directive_next", "directive_next", "last_line", "last_line_flip_eol", "continuing_next"])
+            if situation in ("directive_next", "last_line", "last_line_flip_eol") and len(q.body) > 1 and rng.chance(0.5):
+                fname = [n for n in q.order if n in q.body and n != q.entry][0]     # in the included file
+                first, last = q.body[fname]
+                pos = rng.range(first, last)
+            if situation.startswith("last_line"):
+                pos = len(q.files[fname])
+                if situation == "last_line_flip_eol":
+                    q.final_eol = not q.final_eol
 
     def insert(at, text):
         q.files[fname].insert(at, text)
@@ -339,8 +399,16 @@ def inject(rng, p, kind):
     if ctx in (1, 3):
         insert(pos, comment(rng, True))
         pos += 1
+    if situation.startswith("last_line") and ctx in (2, 3):
+        ctx -= 2
     if ctx in (2, 3):
         insert(pos + 1, comment(rng, True))
+    if situation == "directive_next":
+        insert(pos + (2 if ctx in (2, 3) else 1), decorate(rng, rng.choice(["#d8 1", "#res 1", "#align 8", "#d16 0x1234", '#d "x"']), 0.5))
+    elif situation == "continuing_next":
+        insert(pos + (2 if ctx in (2, 3) else 1), decorate(rng, rng.choice(["nop", "halt", "ld 1"]), 0.5))
+    rest = q.eol.join(q.files[fname][pos + 1:])
+    nxt = next_useful(rest)
     expect, other = (fname, pos), None
     if orig is not None:
         other = (orig[0], orig[1])
@@ -348,7 +416,8 @@ def inject(rng, p, kind):
             expect, other = other, (fname, pos)      # the later declaration is the duplicate
     return {"prog": q, "file": fname, "line": pos, "stmt": stmt, "kind": kind, "expect": expect, "other": other,
             "on_line": ["none", "before", "after", "both"][where], "context": ["none", "before", "after", "both"][ctx],
-            "open_ended": kind == "malformed_directive" and stmt in OPEN_ENDED,
+            "open_ended": kind == "malformed_directive" and stmt in OPEN_ENDED, "situation": situation,
+            "next_token": nxt, "continues": kind == "malformed_directive" and can_continue(stmt, nxt),
             "included": fname != q.entry}
 
 
